@@ -421,10 +421,6 @@ Proof.
     + intros f0 Hf. exfalso. eapply Hn. exact Hf.
 Qed.
 
-Lemma WS_retype nf x w {A B} (r : res A) (r' : res B) x' w' :
-  err_of r' = err_of r -> WS nf x w (err_of r) x' w' -> WS nf x w (err_of r') x' w'.
-Proof. intros ->. auto. Qed.
-
 Lemma write__spec x data w r x' w' : write_ x data w = (r, x', w') ->
   exists nf, nf_ok data nf /\ WS nf x w (err_of r) x' w'.
 Proof.
@@ -1057,9 +1053,6 @@ Proof.
   destruct HW as [(Hx & _)|(Hs & [[_ Hx]|[(k & Hx & _)|(f & Hx & _)]])]; try discriminate; auto.
 Qed.
 
-Lemma closing_done_QP_term s a q : closing_done s = true -> QP s a q -> QP Terminated a q.
-Proof. intros _. apply QP_term. Qed.
-
 (* the pre-step of a read iteration ended the call *)
 Lemma rl_pre_exit x w (ro : res unit) x0 w0 (r : res message) :
   WS [] x w ro x0 w0 -> ro = err_of r -> (forall m, r <> ROk m) ->
@@ -1684,4 +1677,300 @@ Proof.
   intros H. assert (Hc : crs (x_state x) (match x_state x with ClosedByPeer | CloseAcknowledged => true | _ => false end)).
   { destruct (x_state x); reflexivity. }
   destruct (run_ops_inv _ _ _ _ _ _ _ H Hc) as (_ & _ & He & _). exact He.
+Qed.
+
+(* ------------------------------------------------------------------------------------------- *)
+(* 12. Monotonicity of the state, C03 (b), (e), (f)                                             *)
+(* ------------------------------------------------------------------------------------------- *)
+
+Lemma op_mono x o w r x' w' : op_post x o w r x' w' ->
+  (is_active (x_state x) = false -> is_active (x_state x') = false) /\
+  (can_read (x_state x) = false -> can_read (x_state x') = false) /\
+  (x_state x = Terminated -> x_state x' = Terminated) /\
+  (is_cc r = true -> x_state x' = Terminated).
+Proof.
+  intros (evs & Hl & Hr & HT & _).
+  destruct HT as [r0 Hnt HT| Hs -> _|o r0 s0 Hu Hs0 Hwm He HW|m Hs -> _|m Ha Hs -> _|o r0 Hs Ha _ Hp].
+  - destruct HT as [c Hs Hs' _ _ _|c Hs Hs' _ _ _|m Hm Hs' _ _ _ _|_ Hs' _ _|_ Hs' _ _ _|e Hs' Hne _ _ _|p Hs' _ _ _|Hs' _ _ _];
+      rewrite Hs'; try rewrite Hs; cbn; splits; auto; try discriminate; try contradiction.
+    destruct e; try discriminate. contradiction.
+  - cbn. splits; auto; discriminate.
+  - apply wres_state in HW as HS. destruct HS as [HS|[_ HS]]; rewrite HS.
+    + destruct Hs0 as [->|[Hs ->]]; [|rewrite Hs; cbn; splits; auto; try discriminate].
+      * splits; auto. intros Hcc. destruct r0 as [[]|e|p|]; try discriminate Hcc.
+        destruct e; try discriminate Hcc.
+        destruct HW as [(_ & _ & HW & _)|(_ & [[Hx _]|[(k & Hx & _)|(f & Hx & _)]])]; try discriminate; congruence.
+      * intros Hcc. destruct r0 as [[]|e|p|]; try discriminate Hcc.
+        destruct e; try discriminate Hcc.
+        destruct HW as [(_ & HW & _)|(_ & [[Hx _]|[(k & Hx & _)|(f & Hx & _)]])]; discriminate.
+    + cbn. splits; auto.
+  - cbn. splits; auto; discriminate.
+  - cbn. splits; auto; discriminate.
+  - rewrite Hs. apply pure_res_not_msg in Hp. destruct Hp as [_ ->]. splits; auto. discriminate.
+Qed.
+
+Lemma run_ops_mono ops : forall x w rs x' w', run_ops x ops w = (rs, x', w') ->
+  (is_active (x_state x) = false -> is_active (x_state x') = false) /\
+  (can_read (x_state x) = false -> can_read (x_state x') = false) /\
+  (x_state x = Terminated \/ closed_reported rs = true -> x_state x' = Terminated).
+Proof.
+  induction ops as [|o ops IH]; intros x w rs x' w' H.
+  - cbn in H. injection H as <- <- <-. cbn. splits; auto. intros [H|H]; [exact H|discriminate].
+  - rewrite run_ops_cons in H.
+    destruct (run_op x o w) as [[r1 x1] w1] eqn:E1.
+    destruct (run_ops x1 ops w1) as [[rs2 x2] w2] eqn:E2.
+    injection H as <- <- <-.
+    apply run_op_post, op_mono in E1. destruct E1 as (A1 & A2 & A3 & A4).
+    apply IH in E2. destruct E2 as (B1 & B2 & B3).
+    splits; auto.
+    cbn [closed_reported existsb fst]. fold (closed_reported rs2).
+    intros [H|H]; apply B3; [left; auto|].
+    apply orb_true_iff in H. destruct H as [H|H]; [left; auto|right; exact H].
+Qed.
+
+Lemma read_no_msg x w r x' w' : can_read (x_state x) = false ->
+  run_op x OpRead w = (r, x', w') -> forall m, r <> ResMsg (ROk m).
+Proof.
+  intros Hcr H m Hm. subst r. apply run_op_post in H. destruct H as (evs & _ & _ & HT & _).
+  inversion HT as [r0 Hnt HT'| | o r0 s0 Hu | | | o r0 Hs Ha He Hp]; subst; try discriminate.
+  - inversion HT' as [c Hs Hs' _ _ _|c Hs Hs' _ _ _|m' Hm' Hs' Hc _ _ _| | | | |]; subst;
+      rewrite ?Hs in Hcr; try discriminate; congruence.
+  - contradiction.
+Qed.
+
+Theorem b_no_message_after_close role part cfg x0 w0 ops rs x w :
+  ctx_new role part cfg = Some x0 -> w_log w0 = [] ->
+  run_ops x0 ops w0 = (rs, x, w) ->
+  close_received rs = true ->
+  forall r x' w', run_op x OpRead w = (r, x', w') -> forall m, r <> ResMsg (ROk m).
+Proof.
+  intros Hn Hl H Hcr r x' w' Hr.
+  destruct (reach_inv _ _ _ _ _ _ _ _ _ Hn Hl H) as (Hc & _ & _).
+  eapply read_no_msg; [|exact Hr].
+  rewrite Hcr in Hc. destruct (x_state x); cbn in Hc; try discriminate; reflexivity.
+Qed.
+
+Lemma terminated_refuses x w : x_state x = Terminated ->
+  run_op x OpRead w = (ResMsg (RErr EAlreadyClosed), x, w) /\
+  forall m, run_op x (OpWrite m) w = (ResUnit (RErr EAlreadyClosed), x, w).
+Proof.
+  intros Hs. split; [|intros m]; unfold run_op; [unfold read|rewrite write_eq]; rewrite Hs; reflexivity.
+Qed.
+
+Theorem e_already_closed role part cfg x0 w0 ops rs x w :
+  ctx_new role part cfg = Some x0 -> w_log w0 = [] ->
+  run_ops x0 ops w0 = (rs, x, w) ->
+  closed_reported rs = true ->
+  run_op x OpRead w = (ResMsg (RErr EAlreadyClosed), x, w) /\
+  forall m, run_op x (OpWrite m) w = (ResUnit (RErr EAlreadyClosed), x, w).
+Proof.
+  intros _ _ H Hc. apply terminated_refuses.
+  apply run_ops_mono in H. destruct H as (_ & _ & H). apply H. right. exact Hc.
+Qed.
+
+(* converses: what write / read can answer while can_write / can_read *)
+Lemma write_active_result x m w r x' w' : is_active (x_state x) = true ->
+  run_op x (OpWrite m) w = (r, x', w') ->
+  r = ResUnit (ROk tt) \/ (exists k, r = ResUnit (RErr (EIo k))) \/
+  (exists f, r = ResUnit (RErr (EWriteBufferFull f))).
+Proof.
+  intros Ha H. apply is_active_true in Ha. apply run_op_post in H.
+  destruct H as (evs & _ & _ & HT & _).
+  inversion HT as [ | | o r0 s0 Hu Hs0 Hwm He HW| m' Hs| m' Hia| o r0 Hs Haa Hee Hp]; subst;
+    try congruence.
+  - assert (Hcd : closing_done s0 = false).
+    { destruct Hs0 as [->|[_ ->]]; [rewrite Ha|]; reflexivity. }
+    destruct HW as [(_ & HW & _)|(_ & [[-> _]|[(k & -> & _)|(f & -> & _)]])]; [congruence| | |]; eauto.
+  - rewrite Ha in Hia. discriminate.
+  - contradiction.
+Qed.
+
+Lemma read_can_result x w r x' w' : can_read (x_state x) = true ->
+  run_op x OpRead w = (r, x', w') ->
+  r <> ResMsg (RErr EAlreadyClosed) /\ r <> ResMsg (RErr EConnectionClosed) /\
+  r <> ResMsg (RErr (EProtocol ReceivedAfterClosing)).
+Proof.
+  intros Hcr H. apply run_op_post in H. destruct H as (evs & _ & _ & HT & _).
+  inversion HT as [r0 Hnt HT'| Hs | o r0 s0 Hu | | | o r0 Hs Ha He Hp]; subst; try discriminate.
+  - inversion HT' as [ | | |Hcd | |e Hs' Hne Hce | | ]; subst; splits; try discriminate.
+    + destruct (x_state x); discriminate.
+    + intros [= ->]. specialize (Hce Hcr). discriminate.
+    + intros [= ->]. contradiction.
+    + intros [= ->]. specialize (Hce Hcr). discriminate.
+  - rewrite Hs in Hcr. discriminate.
+  - contradiction.
+Qed.
+
+Theorem f_can x w :
+  run_op x OpCanWrite w = (ResBool (is_active (x_state x)), x, w) /\
+  run_op x OpCanRead w = (ResBool (can_read (x_state x)), x, w) /\
+  (is_active (x_state x) = false ->
+   forall ops rs x' w', run_ops x ops w = (rs, x', w') ->
+   forall m, exists r, run_op x' (OpWrite m) w' = (r, x', w') /\ write_refused r) /\
+  (can_read (x_state x) = false ->
+   forall ops rs x' w', run_ops x ops w = (rs, x', w') ->
+   forall r x'' w'', run_op x' OpRead w' = (r, x'', w'') -> forall m, r <> ResMsg (ROk m)) /\
+  (is_active (x_state x) = true ->
+   forall m r x' w', run_op x (OpWrite m) w = (r, x', w') ->
+   r = ResUnit (ROk tt) \/ (exists k, r = ResUnit (RErr (EIo k))) \/
+   (exists f, r = ResUnit (RErr (EWriteBufferFull f)))) /\
+  (can_read (x_state x) = true ->
+   forall r x' w', run_op x OpRead w = (r, x', w') ->
+   r <> ResMsg (RErr EAlreadyClosed) /\ r <> ResMsg (RErr EConnectionClosed) /\
+   r <> ResMsg (RErr (EProtocol ReceivedAfterClosing))).
+Proof.
+  split; [reflexivity|]. split; [reflexivity|]. splits.
+  - intros Ha ops rs x' w' H m. apply write_refused_op.
+    apply run_ops_mono in H. destruct H as (H & _). auto.
+  - intros Hc ops rs x' w' H r x'' w'' Hr. eapply read_no_msg; [|exact Hr].
+    apply run_ops_mono in H. destruct H as (_ & H & _). auto.
+  - intros Ha m r x' w'. apply write_active_result. exact Ha.
+  - intros Hc r x' w'. apply read_can_result. exact Hc.
+Qed.
+
+(* ------------------------------------------------------------------------------------------- *)
+(* 13. C03 (d): a transport that ends before the handshake is a reset                           *)
+(* ------------------------------------------------------------------------------------------- *)
+
+Lemma rd_eof_in evs : In (EvRead RdEof) evs -> rd_eof evs = true.
+Proof. intros H. apply existsb_exists. exists (EvRead RdEof). split; [exact H|reflexivity]. Qed.
+Lemma rd_rst_in evs : In (EvRead (RdErr ConnReset)) evs -> rd_rst evs = true.
+Proof. intros H. apply existsb_exists. exists (EvRead (RdErr ConnReset)). split; [exact H|reflexivity]. Qed.
+Lemma wr_end_in evs n : In (EvWrite n []) evs \/ In (EvWriteErr n ConnReset) evs -> wr_end evs = true.
+Proof.
+  intros [H|H]; apply existsb_exists; eexists; (split; [exact H|reflexivity]).
+Qed.
+
+Definition io_reset (r : op_result) : Prop :=
+  r = ResMsg (RErr (EIo ConnReset)) \/ r = ResUnit (RErr (EIo ConnReset)).
+
+Lemma op_no_close x o w r x' w' : op_post x o w r x' w' ->
+  closing_done (x_state x) = false ->
+  exists evs, w_log w' = w_log w ++ evs /\
+    is_cc r = false /\
+    (rd_eof evs = true -> r = ResMsg (RErr (EProtocol ResetWithoutClosingHandshake))) /\
+    (rd_rst evs = true -> r = ResMsg (RErr (EIo ConnReset))) /\
+    (wr_end evs = true -> io_reset r).
+Proof.
+  intros (evs & Hl & Hr & HT & _) Hcd. exists evs. split; [exact Hl|].
+  destruct HT as [r0 Hnt HT| Hs -> ->|o r0 s0 Hu Hs0 Hwm He HW|m Hs -> ->|m Ha Hs -> ->|o r0 Hs Ha -> Hp].
+  - destruct HT as [c Hs Hs' E1 E2 E3|c Hs Hs' E1 E2 E3|m Hm Hs' _ E1 E2 E3|Hc _ _ _|_ Hs' E1 E2 E3|e Hs' Hne _ E1 E23|p Hs' E1 E2 E3|Hs' E1 E2 E3];
+      try (rewrite E1, E2, E3; splits; try reflexivity; intros; discriminate).
+    + congruence.
+    + rewrite E1. splits.
+      * destruct e; try reflexivity. contradiction.
+      * discriminate.
+      * intros Hx. rewrite E23; auto.
+      * intros Hx. left. rewrite E23; auto.
+  - cbn. splits; try reflexivity; discriminate.
+  - destruct He as [E1 E2]. rewrite E1, E2.
+    assert (Hcd0 : closing_done s0 = false).
+    { destruct Hs0 as [->|[_ ->]]; [exact Hcd|reflexivity]. }
+    destruct HW as [(_ & HW & _)|(_ & [[-> Hw]|[(k & -> & Hk)|(f & -> & Hw)]])]; [congruence| | |];
+      splits; try reflexivity; try discriminate; try (rewrite Hw; discriminate).
+    intros Hx. right. rewrite (Hk Hx). reflexivity.
+  - cbn. splits; try reflexivity; discriminate.
+  - cbn. splits; try reflexivity; discriminate.
+  - apply pure_res_not_msg in Hp. destruct Hp as [_ ->]. cbn. splits; try reflexivity; discriminate.
+Qed.
+
+Theorem d_reset role part cfg x0 w0 ops rs x w :
+  ctx_new role part cfg = Some x0 -> w_log w0 = [] ->
+  run_ops x0 ops w0 = (rs, x, w) ->
+  close_received rs = false ->
+  forall o r x' w' evs, run_op x o w = (r, x', w') -> w_log w' = w_log w ++ evs ->
+    is_cc r = false /\
+    (In (EvRead RdEof) evs -> r = ResMsg (RErr (EProtocol ResetWithoutClosingHandshake))) /\
+    (In (EvRead (RdErr ConnReset)) evs -> r = ResMsg (RErr (EIo ConnReset))) /\
+    (forall n, In (EvWrite n []) evs \/ In (EvWriteErr n ConnReset) evs -> io_reset r).
+Proof.
+  intros Hn Hl H Hcr o r x' w' evs Ho Hle.
+  destruct (reach_inv _ _ _ _ _ _ _ _ _ Hn Hl H) as (Hc & _ & _). rewrite Hcr in Hc.
+  assert (Hcd : closing_done (x_state x) = false).
+  { destruct (x_state x); cbn in Hc; try discriminate; reflexivity. }
+  apply run_op_post in Ho. destruct (op_no_close _ _ _ _ _ _ Ho Hcd) as (evs' & Hl' & H1 & H2 & H3 & H4).
+  rewrite Hl' in Hle. apply app_inv_head in Hle. subst evs'.
+  splits; auto.
+  - intros Hx. apply H2, rd_eof_in, Hx.
+  - intros Hx. apply H3, rd_rst_in, Hx.
+  - intros n Hx. eapply H4, wr_end_in, Hx.
+Qed.
+
+(* ------------------------------------------------------------------------------------------- *)
+(* 14. C03 (c): ConnectionClosed is reported only after a clean close                           *)
+(* ------------------------------------------------------------------------------------------- *)
+
+Lemma op_cc x o w r x' w' : op_post x o w r x' w' -> is_cc r = true ->
+  exists evs, w_log w' = w_log w ++ evs /\
+    closing_done (x_state x) = true /\ is_raw o = false /\ x_state x' = Terminated /\
+    (transport_ended evs = true \/
+     (x_role x' = Server /\ x_additional x' = None /\ c_out (x_codec x') = [])) /\
+    (x_role x' = Client -> transport_ended evs = true).
+Proof.
+  intros (evs & Hl & Hr & HT & _) Hcc. exists evs. split; [exact Hl|].
+  destruct HT as [r0 Hnt HT| Hs -> ->|o r0 s0 Hu Hs0 Hwm He HW|m Hs -> ->|m Ha Hs -> ->|o r0 Hs Ha -> Hp];
+    try discriminate Hcc.
+  - destruct HT as [c Hs Hs' E1 E2 E3|c Hs Hs' E1 E2 E3|m Hm Hs' _ E1 E2 E3|Hc Hs' Hd Hcl|_ Hs' E1 E2 E3|e Hs' Hne _ E1 E23|p Hs' E1 E2 E3|Hs' E1 E2 E3];
+      try discriminate Hcc.
+    + splits; auto.
+    + exfalso. destruct e; try discriminate Hcc. contradiction.
+  - destruct r0 as [[]|e|p|]; try discriminate Hcc. destruct e; try discriminate Hcc.
+    destruct HW as [(_ & Hcd & Hs' & Hd)|(_ & [[Hx _]|[(k & Hx & _)|(f & Hx & _)]])]; try discriminate.
+    assert (Es : s0 = x_state x).
+    { destruct Hs0 as [->|[_ ->]]; [reflexivity|discriminate]. }
+    subst s0. splits; auto.
+    + destruct o as [|m| | | | |]; try reflexivity.
+      specialize (Hwm m eq_refl). rewrite Hwm in Hcd. discriminate.
+    + destruct Hd as [Hd|Hd]; [left; apply te_of_wr, Hd|right; exact Hd].
+    + intros Hc. destruct Hd as [Hd|(Hd & _)]; [apply te_of_wr, Hd|congruence].
+  - apply pure_res_not_msg in Hp. destruct Hp as [_ Hp]. congruence.
+Qed.
+
+Theorem c_clean_close_sound role part cfg x0 w0 ops rs x w :
+  ctx_new role part cfg = Some x0 -> w_log w0 = [] -> no_raw ops ->
+  run_ops x0 ops w0 = (rs, x, w) ->
+  forall o r x' w', run_op x o w = (r, x', w') -> is_cc r = true ->
+    close_received rs = true /\
+    ((c_out (x_codec x') = [] /\ x_additional x' = None /\
+      exists pre c, queued (w_log w') = pre ++ [c] /\ h_opcode (f_hdr c) = OCtl Close) \/
+     transport_ended (w_log w') = true) /\
+    (role = Client -> transport_ended (w_log w') = true).
+Proof.
+  intros Hn Hl Hnr H o r x' w' Ho Hcc.
+  destruct (reach_inv _ _ _ _ _ _ _ _ _ Hn Hl H) as (Hc & Hrole & HQ). specialize (HQ Hnr).
+  apply run_op_post in Ho.
+  destruct (op_cc _ _ _ _ _ _ Ho Hcc) as (evs & Hle & Hcd & Hraw & Hs' & Hd & Hcl).
+  assert (Hcr : close_received rs = true).
+  { destruct (x_state x); cbn in Hc, Hcd; try discriminate; exact Hc. }
+  pose proof (op_InvQ _ _ _ _ _ _ _ Ho Hraw Hc HQ) as [_ HP].
+  rewrite Hcr in HP. specialize (HP Hs' eq_refl).
+  assert (Hr' : x_role x' = role).
+  { destruct Ho as (? & _ & Hr' & _). congruence. }
+  splits; auto.
+  - destruct Hd as [Hd|(_ & Ha & Hout)]; [right; rewrite Hle; apply te_app_r, Hd|left].
+    splits; auto. rewrite Ha in HP. cbn in HP. destruct HP as (pre & c & Hq & Hcl' & _). eauto.
+  - intros ->. rewrite Hle. apply te_app_r, Hcl, Hr'.
+Qed.
+
+(* ------------------------------------------------------------------------------------------- *)
+(* 15. "after a prefix" = "later in the same history"                                           *)
+(* ------------------------------------------------------------------------------------------- *)
+
+Lemma run_ops_split ops1 o ops2 x0 w0 rs x w :
+  run_ops x0 (ops1 ++ o :: ops2) w0 = (rs, x, w) ->
+  exists rs1 x1 w1 r x1' w1' rs2,
+    run_ops x0 ops1 w0 = (rs1, x1, w1) /\ run_op x1 o w1 = (r, x1', w1') /\
+    run_ops x1' ops2 w1' = (rs2, x, w) /\
+    rs = rs1 ++ (r, blen (w_log w1')) :: rs2 /\ length rs1 = length ops1.
+Proof.
+  rewrite run_ops_app. destruct (run_ops x0 ops1 w0) as [[rs1 x1] w1] eqn:E1.
+  rewrite run_ops_cons. destruct (run_op x1 o w1) as [[r x1'] w1'] eqn:E2.
+  destruct (run_ops x1' ops2 w1') as [[rs2 x2] w2] eqn:E3.
+  intros [= <- <- <-]. exists rs1, x1, w1, r, x1', w1', rs2. splits; auto.
+  clear -E1. revert x0 w0 rs1 x1 w1 E1.
+  induction ops1 as [|o1 ops1 IH]; intros x0 w0 rs1 x1 w1 E1.
+  - cbn in E1. injection E1 as <- <- <-. reflexivity.
+  - rewrite run_ops_cons in E1. destruct (run_op x0 o1 w0) as [[ra xa] wa].
+    destruct (run_ops xa ops1 wa) as [[rb xb] wb] eqn:E. injection E1 as <- <- <-.
+    cbn. f_equal. eapply IH. exact E.
 Qed.
